@@ -248,6 +248,10 @@ def producers():
         ("fill_blackbox(child with a nested blackbox)", _fill_nested),
         ("remove_unloaded(flop with dead logic)", _ru_flop),
         ("remove_unloaded(inputs=True)", _ru_plain),
+        ("io.verilog-roundtrip(open pin)", lambda c: _bb_open(c, False, False)),
+        ("io.verilog-fast-roundtrip(open pin)", lambda c: _bb_open(c, True, False)),
+        ("io.verilog(omitted pin)", lambda c: _bb_open(c, False, True)),
+        ("io.verilog-fast(omitted pin)", lambda c: _bb_open(c, True, True)),
     ]
 
 
@@ -332,6 +336,33 @@ def _ru_flop(c):
     cg.lint(r)
     r.remove_unloaded()
     return r
+
+
+def _bb_open(c, fast, omit):
+    """Write and re-read a lint-clean circuit holding a flop whose QN pin is left open (the writer prints .QN());
+    with omit=True the open pin is deleted from the instance's port list altogether."""
+    import re
+
+    import circuitgraph as cg
+
+    r = c.copy()
+    if sorted(r.outputs())[0] in r.inputs():
+        raise _Skip()
+    bb = cg.BlackBox("FD", ["CK", "D"], ["Q", "QN"])
+    r.add("clk_net", "input")
+    r.add("q_net", "buf")
+    r.add("q_out", "buf", fanin="q_net", output=True)
+    r.add_blackbox(bb, "r0", {"CK": "clk_net", "D": sorted(c.outputs())[0], "Q": "q_net"})
+    cg.lint(r)
+    text = cg.io.circuit_to_verilog(r)
+    if ".QN()" not in text:
+        raise _Skip()
+    if omit:
+        text = re.sub(r",\s*\.QN\(\)", "", text)
+        text = re.sub(r"\.QN\(\)\s*,\s*", "", text)
+        if ".QN" in text:
+            raise _Skip()
+    return cg.io.verilog_to_circuit(text, r.name, blackboxes=[cg.BlackBox("FD", ["CK", "D"], ["Q", "QN"])], fast=fast)
 
 
 def _ru_plain(c):
